@@ -270,6 +270,9 @@ def forms_for(v):
     out.append(('triad', 'v::%s;f([;:n3;v;1;v])' % lv, 'n3(%s;1;%s)' % (lv, lv)))
     out.append(('proxy', 'v::%s;q::f(:n1);q(v)' % lv, 'n1(%s)' % lv))
     out.append(('dict-set-get', 'v::%s;d,[;:a;v];d?:a' % lv, 'a::%s;a' % lv))
+    # the remote dictionary takes a name as a symbol or as a string (both name the server-side variable)
+    out.append(('dict-set-get-string-key', 'v::%s;d,[;"a";v];d?"a"' % lv, 'a::%s;a' % lv))
+    out.append(('dict-set-symbol-get-string', 'v::%s;d,[;:a;v];d?"a"' % lv, 'a::%s;a' % lv))
     out.append(('symbol-get', 'v::%s;d,[;:b;v];f(:b)' % lv, 'b::%s;b' % lv))
     return out
 
@@ -352,6 +355,7 @@ def h_ops():
         ops.append(('read-text', 'f(%s)' % kstr(n), n))
         ops.append(('read-sym', 'f(:%s)' % n, n))
         ops.append(('dict-get', 'd?:%s' % n, n))
+        ops.append(('dict-get-string-key', 'd?"%s"' % n, n))
     ops.append(('join', 'f("a,b")', 'a,b'))
     ops.append(('amend', 'f("a::a,1")', 'a::a,1'))
     ops.append(('copy', 'f("b::a")', 'b::a'))
